@@ -343,10 +343,31 @@ bool Instance::eval(const size_t argc, char* const* argv) {
     CScript::const_iterator it = script.begin();
     CScript::const_iterator codehash_before = env->pbegincodehash;
     bool ok = true;
+    // an operation that fails (error or exception) leaves the session as it was before that operation, as a failed step
+    // does: what it popped, counted or charged before failing is put back (the operations before it stay applied)
+    auto stack_before = env->stack;
+    auto altstack_before = env->altstack;
+    auto vfExec_before = env->vfExec;
+    auto nOpCount_before = env->nOpCount;
+    auto execdata_before = env->execdata;
+    auto undo = [&]() {
+        env->stack = stack_before;
+        env->altstack = altstack_before;
+        env->vfExec = vfExec_before;
+        env->nOpCount = nOpCount_before;
+        env->execdata = execdata_before;
+        env->pbegincodehash = codehash_before; // (an OP_CODESEPARATOR that failed on a limit had pointed it into the temporary script)
+    };
     try {
         while (it != script.end()) {
+            stack_before = env->stack;
+            altstack_before = env->altstack;
+            vfExec_before = env->vfExec;
+            nOpCount_before = env->nOpCount;
+            execdata_before = env->execdata;
             if (!StepScript(*env, it, &script)) {
                 fprintf(stderr, "Error: %s\n", ScriptErrorString(*env->serror).c_str());
+                undo();
                 ok = false;
                 break;
             }
@@ -360,6 +381,7 @@ bool Instance::eval(const size_t argc, char* const* argv) {
     } catch (const std::exception& ex) {
         // e.g. scriptnum_error on a numeric operand that is too long
         fprintf(stderr, "Error: exception thrown: %s\n", ex.what());
+        undo();
         ok = false;
     }
     return ok;
